@@ -15,6 +15,9 @@ package main
 //      [7]   ratio.Reset()           -> obs []
 //      [8 v] o := NewCounter(same); o.Inc(v); Append(o)   -> obs []   (an increment of v made now)
 //      [9]   Append(Clone())         -> obs []   (an increment of the current count made now)
+//      [10]  snap = Clone()          -> obs []   (the snapshot is kept and lives on independently)
+//      [11]  snap.Count()            -> obs [Count(), CountedBuckets()]
+//      [12 v] snap.Inc(v)            -> obs []
 //
 // The Ratio observable.  RatioCounter exports CountA() and CountB() next to Ratio() float64.  The harness
 // calls Ratio() first, then CountA(), CountB(), IsReady() at the same frozen instant (Count is idempotent
@@ -110,6 +113,12 @@ func (c *counterComp) Gen(rng *rand.Rand, idx int, tier string, targeted bool) h
 			h.Ops = append(h.Ops, []int64{8, int64(rng.Intn(6))})
 		case k < 5:
 			h.Ops = append(h.Ops, []int64{9})
+		case k < 7:
+			h.Ops = append(h.Ops, []int64{10})
+		case k < 11:
+			h.Ops = append(h.Ops, []int64{11})
+		case k < 13:
+			h.Ops = append(h.Ops, []int64{12, int64(rng.Intn(6))})
 		case k < 22:
 			h.Ops = append(h.Ops, []int64{0, int64(rng.Intn(6))})
 		case k < 42:
@@ -154,11 +163,11 @@ func (c *counterComp) Run(h *hlib.History) ([]hlib.Mon, bool) {
 	for _, op := range h.Ops {
 		ok := false
 		switch {
-		case len(op) == 2 && (op[0] == 0 || op[0] == 4 || op[0] == 5 || op[0] == 8):
+		case len(op) == 2 && (op[0] == 0 || op[0] == 4 || op[0] == 5 || op[0] == 8 || op[0] == 12):
 			ok = op[1] >= 0 && op[1] < 1<<20
 		case len(op) == 2 && op[0] == 2:
 			ok = op[1] >= 0 && op[1] < 1<<50
-		case len(op) == 1 && (op[0] == 1 || op[0] == 3 || op[0] == 6 || op[0] == 7 || op[0] == 9):
+		case len(op) == 1 && (op[0] == 1 || op[0] == 3 || op[0] == 6 || op[0] == 7 || op[0] == 9 || op[0] == 10 || op[0] == 11):
 			ok = true
 		}
 		if !ok {
@@ -175,8 +184,12 @@ func (c *counterComp) Run(h *hlib.History) ([]hlib.Mon, bool) {
 	if err != nil {
 		return nil, false
 	}
+	snap, err := memmetrics.NewCounter(int(n), time.Duration(r)) // until the first Clone: a fresh counter, as in the model
+	if err != nil {
+		return nil, false
+	}
 	var mons []hlib.Mon
-	var l0, la, lb []ev
+	var l0, la, lb, ls []ev
 	now := start
 	check := func(step int, what string, log []ev, got int64) {
 		lower, upper := windowSums(log, now, n, r)
@@ -262,6 +275,18 @@ func (c *counterComp) Run(h *hlib.History) ([]hlib.Mon, bool) {
 			_ = cnt.Append(o)
 			l0 = append(l0, ev{now, op[1]})
 			h.Obs = append(h.Obs, []int64{})
+		case 10:
+			snap = cnt.Clone()
+			ls = append([]ev(nil), l0...)
+			h.Obs = append(h.Obs, []int64{})
+		case 11:
+			got := snap.Count()
+			h.Obs = append(h.Obs, []int64{got, int64(snap.CountedBuckets())})
+			check(step, "snapshot.Count()", ls, got)
+		case 12:
+			snap.Inc(int(op[1]))
+			ls = append(ls, ev{now, op[1]})
+			h.Obs = append(h.Obs, []int64{})
 		case 9:
 			o := cnt.Clone()
 			amount := o.Count()
@@ -295,6 +320,12 @@ func (c *counterComp) Describe(h *hlib.History) interface{} {
 			s = "Ratio"
 		case 8:
 			s = fmt.Sprintf("Append(fresh counter holding %d)", op[1])
+		case 10:
+			s = "snap=Clone()"
+		case 11:
+			s = "snap.Count"
+		case 12:
+			s = fmt.Sprintf("snap.Inc(%d)", op[1])
 		case 9:
 			s = "Append(Clone())"
 		default:
@@ -324,6 +355,10 @@ func (c *counterComp) Nontrivial(h *hlib.History) string {
 			}
 		case 9:
 			hlib.Count("appends_of_clone", 1)
+		case 10:
+			hlib.Count("snapshots_taken", 1)
+		case 11:
+			hlib.Count("snapshot_reads", 1)
 		case 3:
 			tot = 0
 		case 1:
